@@ -1119,6 +1119,44 @@ func (s *Session) genReplayTest(u *Unit, o *Obligation, mv map[string]string) (s
 		fmt.Fprintf(&sb, "\tif hdr_%s != fmt.Sprint(%s.channels, len(%s.data), cap(%s.data), %s.bitDepth) {\n\t\tmodified = true\n\t}\n", identOf(b.name), b.name, b.name, b.name, b.name)
 	}
 	sb.WriteString("\tfmt.Printf(\"REPLAY-MODIFIED %v\\n\", modified)\n")
+	// conversion functions (contract with a kernel loop): result k must depend only on source
+	// sample k and the two formats. The call is repeated on boundary source samples with two
+	// different previous contents of the destination; a covered position whose result differs
+	// between the two runs (a store that was skipped, a value mixed with the old content) confirms a
+	// violation of C05/C06–C09's "overwrites exactly the first n positions … depending only on …".
+	isConv := false
+	for _, lc := range u.ct.Loops {
+		if lc.Kernel {
+			isConv = true
+		}
+	}
+	var srcB, dstB *bufP
+	for i := range bufs {
+		switch bufs[i].name {
+		case "p_src":
+			srcB = &bufs[i]
+		case "p_dst":
+			dstB = &bufs[i]
+		}
+	}
+	if isConv && srcB != nil && dstB != nil && recvExpr == "" {
+		dt := goTypeName(dstB.elem)
+		st := goTypeName(srcB.elem)
+		fmt.Fprintf(&sb, "\tvar depRuns [2][]%s\n\tfor rep := 0; rep < 2; rep++ {\n", dt)
+		for _, l := range strings.Split(strings.TrimRight(memDecl.String()+pre.String(), "\n"), "\n") {
+			sb.WriteString("\t" + l + "\n")
+		}
+		for _, k := range memNames {
+			fmt.Fprintf(&sb, "\t\t_ = mem_%s\n", k)
+		}
+		fmt.Fprintf(&sb, "\t\tfor i := range p_src.data {\n\t\t\tp_src.data[i] = verifSpecial[%s](i)\n\t\t}\n", st)
+		fmt.Fprintf(&sb, "\t\tfor i := range p_dst.data {\n\t\t\tp_dst.data[i] = %s(3 + 4*rep)\n\t\t}\n", dt)
+		sb.WriteString("\t\tfunc() {\n\t\t\tdefer func() { recover() }()\n\t\t\t_ = " + call + "\n\t\t}()\n")
+		fmt.Fprintf(&sb, "\t\tdepRuns[rep] = append([]%s(nil), p_dst.data...)\n\t}\n", dt)
+		sb.WriteString("\tdepN := len(depRuns[0])\n\tif len(p_src.data) < depN {\n\t\tdepN = len(p_src.data)\n\t}\n")
+		sb.WriteString("\tfor k := 0; k < depN && k < len(depRuns[1]); k++ {\n\t\tif verifSample(depRuns[0][k]) != verifSample(depRuns[1][k]) {\n")
+		sb.WriteString("\t\t\tfmt.Printf(\"REPLAY-CONFIRMED: destination position %d (source sample %v) ends as %v or %v depending on the previous destination content: the result does not depend only on the source sample\\n\", k, verifSpecial[" + st + "](k), depRuns[0][k], depRuns[1][k])\n\t\t\tbreak\n\t\t}\n\t}\n")
+	}
 	// verdict by obligation kind
 	lbl := labelOf(o.Name)
 	allocBound := -1
@@ -1175,6 +1213,22 @@ func mathFloat32bits(f float32) uint32 { return mathF32bits(f) }
 
 // replayHelpers: support code of the generated replay test (dumps the post-state).
 const replayHelpers = `
+// verifSpecial: boundary sample values by position (0, 1, -1, 2, -2; negatives wrap for unsigned types).
+func verifSpecial[T SignalTypes](i int) T {
+	var one T = 1
+	switch i % 5 {
+	case 0:
+		return 0
+	case 1:
+		return one
+	case 2:
+		return -one
+	case 3:
+		return one + one
+	}
+	return -(one + one)
+}
+
 type verifBufDump struct {
 	Nil   bool     ` + "`json:\"nil\"`" + `
 	Ch    int      ` + "`json:\"ch\"`" + `
